@@ -329,7 +329,7 @@ func runKW[FE algebra.PrimeFieldElement[FE]](ctx *fieldCtx[FE], a vh.Args, cs ca
 		isSet := distinctIDs(s) && subsetOf(s, holders)
 		if isSet && acc != quals[i] {
 			key := "accepts-vs-isqualified-" + string(cs.pol.fam)
-			if cs.pol.fam == 'N' && !subsetOf(s, mspHolders) {
+			if cs.pol.fam == 'N' && quals[i] && !acc && !subsetOf(s, mspHolders) {
 				key = "cnf-holder-without-rows" // a CNF shareholder that is in every maximal unqualified set owns no MSP row
 			}
 			prop(key, fmt.Sprintf("set %v: IsQualified=%v but MSP.Accepts=%v", s, quals[i], acc))
